@@ -442,6 +442,14 @@ func kinds(s []reqSpec) map[string]int {
 }
 
 // TestC06_Standalone: the relic binary with each sink state.
+// standaloneFixtures: signature types the standalone command is driven through (inputs from
+// the repository's functest packages; "" = a generated script).
+var standaloneFixtures = []struct{ sigType, file string }{
+	{"ps", ""}, {"ps", ""},
+	{"pe-coff", "ClassLibrary1.dll"}, {"pe-coff", "WindowsFormsApplication1.exe"},
+	{"jar", "hello.jar"}, {"msi", "dummy.msi"}, {"cab", "dummy.cab"}, {"cat", "hyperv.cat"},
+}
+
 func TestC06_Standalone(t *testing.T) {
 	if err := env.BuildBinary(); err != nil {
 		fmt.Println("VERIF-INCONCLUSIVE: cannot build relic:", err)
@@ -460,16 +468,31 @@ func TestC06_Standalone(t *testing.T) {
 		key := rapid.SampledFrom(pipe.SigningKeys).Draw(t, "key")
 		h := rapid.SampledFrom([]crypto.Hash{crypto.SHA1, crypto.SHA256, crypto.SHA512}).Draw(t, "hash")
 		bad := rapid.IntRange(0, 4).Draw(t, "bad_input") == 0
+		// signer modules differ in what runs between the signature and the audit record
+		// (post-signing fix-up, patch or whole-file output), so the type is drawn too
+		fx := rapid.SampledFrom(standaloneFixtures).Draw(t, "fixture")
 		in := filepath.Join(dir, "script.ps1")
-		os.WriteFile(in, []byte("Write-Host 1\r\n"), 0o644)
-		req := &pipe.Req{SigType: "ps", In: in, Key: key, Hash: h}
+		wantType := fx.sigType
+		if fx.file == "" {
+			os.WriteFile(in, []byte("Write-Host 1\r\n"), 0o644)
+		} else {
+			blob, rerr := os.ReadFile(filepath.Join(pipe.RepoDir(), "functest", "packages", fx.file))
+			if rerr != nil {
+				t.Fatalf("harness: %v", rerr)
+			}
+			in = filepath.Join(dir, fx.file)
+			os.WriteFile(in, blob, 0o644)
+		}
+		req := &pipe.Req{SigType: fx.sigType, In: in, Key: key, Hash: h}
 		if bad {
-			req.SigType = "pe-coff"
+			in = filepath.Join(dir, "script.ps1")
+			os.WriteFile(in, []byte("Write-Host 1\r\n"), 0o644)
+			req = &pipe.Req{SigType: "pe-coff", In: in, Key: key, Hash: h}
 		}
 		before, _ := readRecords(auditPath)
 		err := env.SignBinary(req)
 		after, malformed := readRecords(auditPath)
-		desc := map[string]any{"sink": state, "key": key, "digest": h.String(), "bad_input": bad}
+		desc := map[string]any{"sink": state, "key": key, "digest": h.String(), "bad_input": bad, "type": fx.sigType, "file": fx.file}
 		failf := func(f string, args ...any) {
 			desc["error"] = fmt.Sprintf(f, args...)
 			evid.SaveCase("TestC06_Standalone", desc)
@@ -479,7 +502,7 @@ func TestC06_Standalone(t *testing.T) {
 			failf("malformed audit line %q", malformed[0])
 		}
 		added := len(after) - len(before)
-		rec.Case(fmt.Sprintf("sa|%s|%s|%s|%v", state, key, h, bad), "standalone/"+state+fmt.Sprintf("/bad=%v", bad), !sinkWorks(state))
+		rec.Case(fmt.Sprintf("sa|%s|%s|%s|%v|%s", state, key, h, bad, fx.file), "standalone/"+state+fmt.Sprintf("/bad=%v", bad)+"/"+fx.sigType, !sinkWorks(state))
 		rec.Sample("standalone/"+state, desc)
 		if err == nil {
 			if !sinkWorks(state) {
@@ -493,7 +516,7 @@ func TestC06_Standalone(t *testing.T) {
 			}
 			a := after[len(after)-1]
 			fp := fmt.Sprintf("%x", sha1.Sum(env.Leaf[key].Raw))
-			if a["sig.keyname"] != key || a["sig.type"] != "ps" || a["sig.x509.fingerprint"] != fp {
+			if a["sig.keyname"] != key || a["sig.type"] != wantType || a["sig.x509.fingerprint"] != fp {
 				failf("audit record does not describe the operation: %v", a)
 			}
 		} else if added != 0 && sinkWorks(state) && bad {
